@@ -42,7 +42,7 @@ ASSUMPTIONS = [
     'linear (T,P) interpolation only, where averaging over g commutes with interpolation',
 ]
 _Q = {'degenerate': 32, 'jensen': 20}
-_T = {'degenerate': 900, 'jensen': 500}
+_T = {'degenerate': 700, 'jensen': 400}
 BUDGET = {
     'quick': [dict(name='boundscheck', env={'NUMBA_BOUNDSCHECK': '1'}, shards=8, cases=_Q)],
     'thorough': [dict(name='boundscheck', env={'NUMBA_BOUNDSCHECK': '1'}, shards=16, cases=_T)],
